@@ -10,10 +10,31 @@ patterns found in the event log. None of this re-implements the crate's algorith
     of the *returned* values.
 """
 from fractions import Fraction as F
+from decimal import Decimal as D, getcontext
 import bisect
 import struct
 
+# Long axes (several hundred knots and more) are solved in 120-digit decimal arithmetic instead
+# of exact rationals (whose numerators grow with every elimination step): the reference is then
+# accurate to ~1e-100 relative, i.e. still exact for every purpose of the 1e-12-sized tolerances.
+getcontext().prec = 160
+
 U = {"f64": F(1, 2 ** 53), "f32": F(1, 2 ** 24)}
+
+
+def unit(ty, N):
+    """unit roundoff as a number of type N (Fraction or Decimal)"""
+    u = U[ty]
+    return N(u.numerator) / N(u.denominator)
+
+
+def floor_div(a, b):
+    """floor(a / b) as an int, for Fraction and Decimal alike (b > 0)"""
+    q = a / b
+    k = int(q)  # truncates towards zero
+    if q < 0 and q != k:
+        k -= 1
+    return k
 
 
 def dec(h, ty):
@@ -114,7 +135,7 @@ def solve_sparse(rows, rhs):
                     elif c in rr:
                         del rr[c]
                 rhs[order[r]] -= f * rhs[order[k]]
-    sol = [F(0)] * n
+    sol = [rhs[0] * 0] * n
     for k in range(n - 1, -1, -1):
         pr = rows[order[k]]
         s = rhs[order[k]]
@@ -130,56 +151,73 @@ def spline_moments(x, y, bc):
     NotAKnot / Natural / Clamped / FirstDeriv / SecondDeriv (val Fraction or None).
     Returns the list of second derivatives M_i at the knots."""
     n = len(x)
+    N = type(x[0])
     h = [x[i + 1] - x[i] for i in range(n - 1)]
     s = [(y[i + 1] - y[i]) / h[i] for i in range(n - 1)]
-    rows = []
-    rhs = []
+    interior_rows = []
+    interior_rhs = []
     for i in range(1, n - 1):
-        rows.append({i - 1: h[i - 1], i: 2 * (h[i - 1] + h[i]), i + 1: h[i]})
-        rhs.append(6 * (s[i] - s[i - 1]))
+        interior_rows.append({i - 1: h[i - 1], i: 2 * (h[i - 1] + h[i]), i + 1: h[i]})
+        interior_rhs.append(6 * (s[i] - s[i - 1]))
+    # row order: left condition, interior rows, right condition. In exact arithmetic the order
+    # is irrelevant; in the decimal arithmetic used for long axes this (diagonally dominant)
+    # order keeps the elimination stable.
     if bc == "Periodic":
-        rows.append({0: F(1), n - 1: F(-1)})
-        rhs.append(F(0))
+        first = ({0: N(1), n - 1: N(-1)}, N(0))
         # S'(x0+) = S'(x_{n-1}-)
         r = {}
         r[0] = r.get(0, 0) - 2 * h[0]
         r[1] = r.get(1, 0) - h[0]
         r[n - 2] = r.get(n - 2, 0) - h[n - 2]
         r[n - 1] = r.get(n - 1, 0) - 2 * h[n - 2]
-        rows.append(r)
-        rhs.append(6 * (s[n - 2] - s[0]))
-        return solve_sparse(rows, rhs)
+        last = (r, 6 * (s[n - 2] - s[0]))
+        rows = [first[0]] + interior_rows + [last[0]]
+        rhs = [first[1]] + interior_rhs + [last[1]]
+        return checked_solve(rows, rhs)
     (lk, lv), (rk, rv) = bc
     if n == 3 and lk == "NotAKnot" and rk == "NotAKnot":
         m = 2 * (s[1] - s[0]) / (h[0] + h[1])
         return [m, m, m]
     # left
     if lk in ("Natural", "SecondDeriv"):
-        rows.append({0: F(1)})
-        rhs.append(F(0) if lk == "Natural" else lv)
+        first = ({0: N(1)}, N(0) if lk == "Natural" else lv)
     elif lk in ("Clamped", "FirstDeriv"):
-        v = F(0) if lk == "Clamped" else lv
-        rows.append({0: 2 * h[0], 1: h[0]})
-        rhs.append(6 * (s[0] - v))
+        v = N(0) if lk == "Clamped" else lv
+        first = ({0: 2 * h[0], 1: h[0]}, 6 * (s[0] - v))
     elif lk == "NotAKnot":
-        rows.append({0: h[1], 1: -(h[0] + h[1]), 2: h[0]})
-        rhs.append(F(0))
+        first = ({0: h[1], 1: -(h[0] + h[1]), 2: h[0]}, N(0))
     else:
         raise ValueError(lk)
     # right
     if rk in ("Natural", "SecondDeriv"):
-        rows.append({n - 1: F(1)})
-        rhs.append(F(0) if rk == "Natural" else rv)
+        last = ({n - 1: N(1)}, N(0) if rk == "Natural" else rv)
     elif rk in ("Clamped", "FirstDeriv"):
-        v = F(0) if rk == "Clamped" else rv
-        rows.append({n - 2: h[n - 2], n - 1: 2 * h[n - 2]})
-        rhs.append(6 * (v - s[n - 2]))
+        v = N(0) if rk == "Clamped" else rv
+        last = ({n - 2: h[n - 2], n - 1: 2 * h[n - 2]}, 6 * (v - s[n - 2]))
     elif rk == "NotAKnot":
-        rows.append({n - 3: h[n - 2], n - 2: -(h[n - 3] + h[n - 2]), n - 1: h[n - 3]})
-        rhs.append(F(0))
+        last = ({n - 3: h[n - 2], n - 2: -(h[n - 3] + h[n - 2]), n - 1: h[n - 3]}, N(0))
     else:
         raise ValueError(rk)
-    return solve_sparse(rows, rhs)
+    rows = [first[0]] + interior_rows + [last[0]]
+    rhs = [first[1]] + interior_rhs + [last[1]]
+    return checked_solve(rows, rhs)
+
+
+def checked_solve(rows, rhs):
+    """solve and (for inexact number types) verify the residual; an inaccurate reference is
+    reported as Singular, i.e. the case becomes inconclusive, never a verdict"""
+    sol = solve_sparse(rows, rhs)
+    if isinstance(rhs[0], F):
+        return sol
+    for r, b in zip(rows, rhs):
+        acc = -b
+        mag = abs(b)
+        for c, a in r.items():
+            acc += a * sol[c]
+            mag += abs(a * sol[c])
+        if mag != 0 and abs(acc) > mag * D(10) ** -80:
+            raise Singular()
+    return sol
 
 
 def spline_eval(x, y, M, i, q):
@@ -194,7 +232,7 @@ def spline_eval(x, y, M, i, q):
 def spline_slope_bound(x, y, M):
     """exact upper bound of |S'| over the whole range"""
     n = len(x)
-    L = F(0)
+    L = x[0] * 0
     for i in range(n - 1):
         h = x[i + 1] - x[i]
         s = (y[i + 1] - y[i]) / h
@@ -220,7 +258,7 @@ def spline_scale(ty, x, y, M, bc):
                 G += abs(v) * hmax
             elif k == "SecondDeriv":
                 G += abs(v) * hmax * hmax
-    return U[ty] * (1 + rho) * G
+    return unit(ty, type(x[0])) * (1 + rho) * G
 
 
 def t_amp(x, i, q):
@@ -240,7 +278,7 @@ def lagrange_weights(a, z, deriv):
     w = []
     for j in range(n):
         others = [a[m] for m in range(n) if m != j]
-        den = F(1)
+        den = type(z)(1)
         for o in others:
             den *= (a[j] - o)
         # numerator polynomial prod (x - o) for o in others: coefficients
@@ -255,6 +293,6 @@ def lagrange_weights(a, z, deriv):
         elif deriv == 2:
             num = 6 * z - 2 * e1
         else:
-            num = F(6)
+            num = type(z)(6)
         w.append(num / den)
     return w
